@@ -132,9 +132,9 @@ Proof.
 Qed.
 
 Definition ev_fresh (ev : sevent) (S : list N) : Prop :=
-  match ev with ESubmit c _ _ _ => ~ In c S | _ => True end.
+  match ev with ESubmit c _ _ _ _ => ~ In c S | _ => True end.
 Definition ev_subs (ev : sevent) (S : list N) : list N :=
-  match ev with ESubmit c _ _ _ => c :: S | _ => S end.
+  match ev with ESubmit c _ _ _ _ => c :: S | _ => S end.
 
 Lemma q_get_slot {T} (q : queries T) i e : q_get q i = Some e <-> slot_at (q_vec q) i = Some (Some e).
 Proof.
@@ -151,7 +151,7 @@ Lemma in_app_single {A} (x y : A) l : In x (l ++ [y]) -> In x l \/ x = y.
 Proof. intros H. apply in_app_or in H. destruct H as [H|[H|[]]]; auto. Qed.
 
 Section Step.
-Variable cs : entry -> msg -> bool * N * bool.
+Variable cs : entry -> msg -> bool * xfr * bool.
 Variable idle_zero : bool.
 
 Lemma after_reply_inv (q : queries entry) : q_inv q ->
@@ -166,7 +166,7 @@ Lemma s_step_inv (s : sstate) (S : list N) (ev : sevent) :
   exists s', s_step cs idle_zero s ev = Ok s' /\ sinv s' (ev_subs ev S).
 Proof.
   intros (Hq & Hwire & Hsub & Huniq & Hsound & Hcount & Hdown) Hfresh.
-  destruct ev as [c qs multi bad|m|err]; cbn [s_step ev_subs ev_fresh] in *.
+  destruct ev as [c qs multi bad x0|m|err]; cbn [s_step ev_subs ev_fresh] in *.
   - (* submit *)
     assert (Hsub' : forall c0 i qs0, In (c0, i, qs0) (st_sent s) -> In c0 (c :: S)) by (intros; right; eauto).
     assert (Hcnt_err : forall e0 c0, pending c0 (st_q s) + tcount c0 (st_log s ++ [(c, multi, DError e0)]) = inb c0 (c :: S)).
@@ -177,7 +177,7 @@ Proof.
               exists qs0, In (c0, m_id m0, qs0) (st_sent s) /\ answers (mkReq (m_id m0) qs0) m0).
     { intros e0 c0 m0 H. apply in_app_single in H. destruct H as [H|H]; [eauto|discriminate]. }
     destruct (st_conn s) eqn:Econn.
-    + destruct (insert_spec (st_q s) (mkEntry c qs multi 0) Hq)
+    + destruct (insert_spec (st_q s) (mkEntry c qs multi x0 (is_axfr_init x0)) Hq)
         as [(Hfull & E)|(Hroom & q' & idx & E & Hq' & Hidx & Hfree & Hget & _)]; rewrite E; cbn [bind].
       * eexists. split; [reflexivity|]. unfold sinv. cbn [st_q st_conn st_sent st_log].
         split; [exact Hq|]. split; [exact Hwire|]. split; [exact Hsub'|]. split; [exact Huniq|].
@@ -186,13 +186,13 @@ Proof.
         assert (Hpend : forall c0, pending c0 q' = pending c0 (st_q s) + (if c =? c0 then 1 else 0)).
         { intros c0. unfold pending. destruct Hshape as [(Hset & Hs)|(Happ & _)].
           - pose proof (wsum_set (callw c0) _ _ _ _ _ Hset Hs) as W. cbn [wopt] in W.
-            replace (callw c0 (mkEntry c qs multi 0)) with (if c =? c0 then 1 else 0) in W by reflexivity. lia.
+            replace (callw c0 (mkEntry c qs multi x0 (is_axfr_init x0))) with (if c =? c0 then 1 else 0) in W by reflexivity. lia.
           - rewrite Happ, wsum_app. cbn [wsum].
-            replace (callw c0 (mkEntry c qs multi 0)) with (if c =? c0 then 1 else 0) by reflexivity. lia. }
+            replace (callw c0 (mkEntry c qs multi x0 (is_axfr_init x0))) with (if c =? c0 then 1 else 0) by reflexivity. lia. }
         destruct bad.
         -- (* cannot be converted: taken out again *)
            pose proof (remove_shape q' idx) as Hrem.
-           assert (Hg : q_get q' idx = Some (mkEntry c qs multi 0)) by (rewrite Hget; unfold upd; rewrite N.eqb_refl; reflexivity).
+           assert (Hg : q_get q' idx = Some (mkEntry c qs multi x0 (is_axfr_init x0))) by (rewrite Hget; unfold upd; rewrite N.eqb_refl; reflexivity).
            destruct (remove_spec q' idx Hq') as (q'' & Er & Hq'' & Hget'' & _). rewrite Er in Hrem. rewrite Hg in Hrem. rewrite Er.
            destruct Hrem as (Hset & Hs & _).
            eexists. split; [reflexivity|]. unfold sinv. cbn [st_q st_conn st_sent st_log].
@@ -201,7 +201,7 @@ Proof.
              rewrite Hget in He. unfold upd in He. rewrite Ei in He. eauto. }
            split; [exact Hsub'|]. split; [exact Huniq|]. split; [apply Hsound_err|]. split; [|intros H; congruence].
            intros c0. pose proof (wsum_set (callw c0) _ _ _ _ _ Hset Hs) as W. cbn [wopt] in W.
-           replace (callw c0 (mkEntry c qs multi 0)) with (if c =? c0 then 1 else 0) in W by reflexivity.
+           replace (callw c0 (mkEntry c qs multi x0 (is_axfr_init x0))) with (if c =? c0 then 1 else 0) in W by reflexivity.
            specialize (Hpend c0). specialize (Hcnt_err 12 c0). unfold pending in *. lia.
         -- eexists. split; [reflexivity|]. unfold sinv. cbn [st_q st_conn st_sent st_log].
            split; [exact Hq'|]. split.
@@ -249,7 +249,7 @@ Proof.
         split; [|apply after_reply_inv; exact Hq'].
         intros c0. rewrite !tcount_app. cbn [tcount terminal]. specialize (Hcount c0). specialize (Hpend' c0).
         unfold callw in Hpend'. rewrite andb_true_r. destruct isans; cbn [negb andb]; rewrite andb_false_r; lia.
-      * destruct (insert_at_spec q' (m_id m) (mkEntry (e_caller e) (e_qs e) true x) Hq' Hnone) as (q'' & Ei & Hq'' & Hget'' & _).
+      * destruct (insert_at_spec q' (m_id m) (mkEntry (e_caller e) (e_qs e) true x (e_axfr e)) Hq' Hnone) as (q'' & Ei & Hq'' & Hget'' & _).
         rewrite Ei. cbn [bind]. pose proof (insert_at_shape _ _ _ _ Ei) as Hset2.
         eexists. split; [reflexivity|]. unfold sinv. cbn [st_q st_conn st_sent st_log].
         split; [exact Hq''|]. split.
@@ -260,7 +260,7 @@ Proof.
         split; [|apply after_reply_inv; exact Hq''].
         intros c0. rewrite tcount_app. cbn [tcount terminal].
         pose proof (wsum_set (callw c0) _ _ _ _ _ Hset2 Hnone) as W. cbn [wopt] in W.
-        replace (callw c0 (mkEntry (e_caller e) (e_qs e) true x)) with (if e_caller e =? c0 then 1 else 0) in W by reflexivity.
+        replace (callw c0 (mkEntry (e_caller e) (e_qs e) true x (e_axfr e))) with (if e_caller e =? c0 then 1 else 0) in W by reflexivity.
         specialize (Hcount c0). specialize (Hpend' c0). unfold callw in Hpend'. unfold pending in *.
         destruct isans; cbn [negb andb]; rewrite andb_false_r; lia.
     + eexists. split; [reflexivity|]. unfold sinv. cbn [st_q st_conn st_sent st_log].
@@ -349,18 +349,18 @@ Proof.
 Qed.
 
 (* ------------------------------------------------------------ non-vacuity *)
-Definition cs0 (e : entry) (m : msg) : bool * N * bool := (m_rcode m =? 1, 0, true).
-Definition good (id q : N) : msg := mkMsg id true false 0 1 0 0 0 (Some [q]).
+Definition cs0 (e : entry) (m : msg) : bool * xfr * bool := (m_rcode m =? 1, XDone, true).
+Definition good (id q : N) : msg := mkMsg id true false 0 1 0 0 0 (Some [q]) (Some []).
 
 Example ex_demux :
   exists s, s_run cs0 false
-    [ESubmit 1 [11] false false; ESubmit 2 [22] false false; EReply (good 1 22); EReply (good 0 22);
-     ESubmit 3 [33] false false; EReply (good 0 11); EReply (good 0 33); ESubmit 4 [44] false false; EFail 7;
-     ESubmit 5 [55] false false] = Ok s /\
+    [ESubmit 1 [11] false false XDone; ESubmit 2 [22] false false XDone; EReply (good 1 22); EReply (good 0 22);
+     ESubmit 3 [33] false false XDone; EReply (good 0 11); EReply (good 0 33); ESubmit 4 [44] false false XDone; EFail 7;
+     ESubmit 5 [55] false false XDone] = Ok s /\
     st_log s = [(2, false, DAnswer (good 1 22)); (1, false, DWrong); (3, false, DWrong);
                 (4, false, DError 7); (5, false, DError 7)] /\
     st_sent s = [(1, 0, [11]); (2, 1, [22]); (3, 0, [33]); (4, 0, [44])].
 Proof. eexists. vm_compute. auto. Qed.
 
-Example ex_distinct : distinct_callers [ESubmit 1 [11] false false; EReply (good 0 11); ESubmit 2 [22] true false].
+Example ex_distinct : distinct_callers [ESubmit 1 [11] false false XDone; EReply (good 0 11); ESubmit 2 [22] true false XDone].
 Proof. cbn. intuition. Qed.
